@@ -22,7 +22,7 @@ func c02Doc(family int, v string) ([]map[string]any, func()) {
 			"networks": map[string]any{"n": map[string]any{"ipam": map[string]any{"config": []any{map[string]any{"subnet": "10.0.0.0/24"}, map[string]any{"subnet": "10.1.0.0/24"}}}}, "m": nil}}
 		over := map[string]any{"services": map[string]any{
 			"a": map[string]any{"environment": []any{"K=o" + v, "N=2"}, "labels": map[string]any{"m": v}, "ports": []any{"81", "82"}, "cap_add": []any{"Y", "Z"},
-				"depends_on": map[string]any{"c": map[string]any{"condition": "service_healthy"}}}},
+				"depends_on": map[string]any{"c": map[string]any{"condition": "service_healthy"}, "b": map[string]any{"condition": "service_completed_successfully", "required": false}}}},
 			"networks": map[string]any{"n": map[string]any{"ipam": map[string]any{"config": []any{map[string]any{"subnet": "10.1.0.0/24", "gateway": "10.1.0.1"}}}}}}
 		return []map[string]any{base, over}, setup
 	case family == 13: // extends: siblings sharing a base, nested keys overridden differently
